@@ -180,7 +180,7 @@ def check_invariants(sheet, removed, step):
     living = list(walk(sheet.cssRules))
     living_parts = []
     for r in living:
-        for attr in ('style', 'selectorList', 'media'):
+        for attr in ('style', 'selectorList', 'media', 'variables'):
             part = getattr(r, attr, None)
             if part is not None:
                 living_parts.append(part)
@@ -249,7 +249,7 @@ def check(case, ctx):
             step = f'op {k} {o!r} (raising={case["raising"]}, init={case["init"]})'
             kind = o[0]
             before_rules = list(walk(sheet.cssRules))
-            before_parts = [(attr, getattr(r, attr)) for r in before_rules for attr in ('style', 'selectorList', 'media')
+            before_parts = [(attr, getattr(r, attr)) for r in before_rules for attr in ('style', 'selectorList', 'media', 'variables')
                             if getattr(r, attr, None) is not None]
             offered = None
             rejected = False
@@ -359,7 +359,7 @@ def check(case, ctx):
             how = {'delete': 'deleteRule', 'nDelete': 'deleteRule', 'sheetText': 'sheet.cssText=', 'ruleText': 'rule.cssText=',
                    'nsDel': 'del namespaces[]'}.get(kind, kind)
             removed.extend((r, how) for r in gone)
-            now_parts = [getattr(r, attr) for r in now for attr in ('style', 'selectorList', 'media') if getattr(r, attr, None) is not None]
+            now_parts = [getattr(r, attr) for r in now for attr in ('style', 'selectorList', 'media', 'variables') if getattr(r, attr, None) is not None]
             for attr, part in before_parts:
                 if not any(part is x for x in now_parts):
                     removed.append((part, 'part:' + attr + ' replaced by ' + how))
